@@ -1115,10 +1115,11 @@ where
                     ..
                 }) = self.ports.get_mut(&port)
                 {
-                    if !remote_receiver_closed.load(Ordering::Relaxed) {
-                        // Disable credits provider.
-                        sender_credit_provider.close(false);
+                    // Disable credits provider, also when the receiver had been closed gracefully before:
+                    // nothing that is sent from now on will be processed or returned as credits.
+                    sender_credit_provider.close(false);
 
+                    if !remote_receiver_closed.load(Ordering::Relaxed) {
                         // Send hangup notifications.
                         remote_receiver_closed.store(true, Ordering::Relaxed);
                         let notifies = remote_receiver_closed_notify.lock().unwrap().take().unwrap();
